@@ -117,6 +117,25 @@ CHECKS["C15"] = dict(
     note="Trusted: in-process driver (auth on, one tenant), Restart = TieredEngine::recover. Grid, not all inputs.",
 )
 
+CHECKS["C12"] = dict(
+    engine="seqmc", category="model_checking", design_ref="DESIGN.md 3.12",
+    technique="exhaustive backup/restore histories on the real BackupManager / RestoreManager / recover under a logical clock with virtual mtimes; complete single-byte tampering enumeration; clear-guard matrix; exhaustive retention timelines x policies",
+    text="(1) all histories of the depth bound over writes, SNAP, RESTART, FULL and INCREMENTAL backups (rotation threshold 1 byte so snapshots compact segments between backups): every backup taken is restored by id and by point-in-time into an empty directory, recovered, and must equal the reference map as of that backup. (2) for a full+incremental chain every byte of every archive and metadata file is overwritten (two or four patterns) and every truncation tried; restoring over a target with sentinel files and clearing allowed must either be rejected with the target byte-identical or yield the expected collection. (3) non-empty target x allow_clear x BACKUP_ALLOW_CLEAR values x restore route: cleared only with confirmation. (4) every timeline of 2-3 (thorough 4) backups over five age classes x every parent assignment x 32 policies: retained set closed under parent_id, nothing younger than min_age deleted.",
+    note="Trusted: kvshim logical clock + virtual mtime (statx), reference map. Known finding: archive member names are not covered by the backup checksum.",
+)
+CHECKS["C16"] = dict(
+    engine="seqmc", category="exploration", design_ref="DESIGN.md 3.16",
+    technique="exhaustive enumeration of a fixed grid (family x metric x dimension x size x build route) with fixed seeds against an f64 brute force",
+    text="For every cell of the fixed grid (9 cells at size 500 quick; 108 cells up to 5000 vectors thorough) the same live set is reached by four routes (online inserts, bulk build, 60 % delete + forced tombstone compaction, snapshot + recovery rebuild); 200 queries each: recall@10 >= 0.80 per route, route difference <= 0.10, and every query repeated from another thread returns bit-identical distances and the same documents outside exact ties. The build is deterministic, so the numbers are reproducible.",
+    note="This is a complete enumeration of a FIXED grid with FIXED seeds; it says nothing about recall on other datasets (no bounded exhaustive space implies a statistical floor). Weakest fit of the technique, stated as such.",
+)
+CHECKS["C17"] = dict(
+    engine="membound", category="exploration", design_ref="DESIGN.md 3.17",
+    technique="exhaustive kernel x function x length x offset grid and all bounded index operation sequences executed on the real code under AddressSanitizer with std ub_checks",
+    text="Every available ISA kernel (scalar, SSE2, AVX2+FMA, AVX-512F, plus the dispatched entry points; private kernels reached by compiling simd.rs with an appended child module) x {dot, sum_squares, l2_sq, dot_and_norms} x length 0..130 x start offset 0..3 on exact-size heap buffers, and every operation sequence of depth 4 (thorough 6) over {add, add duplicate vector, add duplicate id, search, search with k=ef=10000, pre-cancelled search} x dim {1,3,(8),17,130} x M x capacity x metric on HnswVectorIndex, plus HnswBackend runs with overwrites, deletes, forced tombstone compaction, batch search and free-running readers; all compiled with -Zsanitizer=address and debug assertions. Any sanitizer report, ub_check abort or kernel/scalar mismatch is a violation.",
+    note="Trusted: AddressSanitizer + ub_checks as oracle. Cancellation reduced to a pre-cancelled flag; concurrent readers are free-running (not exhaustive); no TSan pass.",
+)
+
 # properties not claimed (yet): id -> reason
 NOT_APPLICABLE = {}
 
@@ -125,7 +144,7 @@ ENGINES = {
     "crashmc": ("harness/crashmc", "exhaustive crash-point / power-loss / single-fault enumeration over file-system effect logs recorded by the kvshim LD_PRELOAD shim, recovered with the real engine"),
     "schedmc": ("harness/schedmc", "stateless preemption-bounded exploration of real engine threads under the ksched scheduler (parking_lot replaced by pl-shim)"),
     "srvmc": ("harness/srvmc", "the real gRPC handlers compiled in-process (kyrodb_server.rs included as a module) driven by exhaustive RPC sequences"),
-    "membound": ("harness/membound", "exhaustive kernel x length x offset grid and bounded index op sequences under AddressSanitizer"),
+    "membound": ("membound", "exhaustive kernel x length x offset grid and bounded index op sequences under AddressSanitizer"),
 }
 
 
